@@ -445,6 +445,14 @@ package analysis
 //@   ensures old(primary.SecurityDefinitions) != nil ==> primary.SecurityDefinitions == old(primary.SecurityDefinitions)
 //@   ensures old(primary.Paths) != nil ==> primary.Paths == old(primary.Paths) && (old(primary.Paths.Paths) != nil ==> primary.Paths.Paths == old(primary.Paths.Paths))
 //@   ensures old(primary.Definitions) == nil ==> fresh(primary.Definitions) && len(primary.Definitions) == 0
+//@   ensures old(primary.Parameters) == nil ==> fresh(primary.Parameters) && len(primary.Parameters) == 0
+//@   ensures len(primary.Consumes) == old(len(primary.Consumes)) && (forall x in 0..len(primary.Consumes) :: primary.Consumes[x] == old(primary.Consumes[x]))
+//@   ensures len(primary.Produces) == old(len(primary.Produces)) && (forall x in 0..len(primary.Produces) :: primary.Produces[x] == old(primary.Produces[x]))
+//@   ensures len(primary.Schemes) == old(len(primary.Schemes)) && (forall x in 0..len(primary.Schemes) :: primary.Schemes[x] == old(primary.Schemes[x]))
+//@   ensures old(primary.Responses) == nil ==> fresh(primary.Responses) && len(primary.Responses) == 0
+//@   ensures old(primary.SecurityDefinitions) == nil ==> fresh(primary.SecurityDefinitions) && len(primary.SecurityDefinitions) == 0
+//@   ensures old(primary.Paths) == nil ==> fresh(primary.Paths) && fresh(primary.Paths.Paths) && len(primary.Paths.Paths) == 0
+//@   ensures old(primary.Paths) != nil && old(primary.Paths.Paths) == nil ==> fresh(primary.Paths.Paths) && len(primary.Paths.Paths) == 0
 
 //@ func Mixin(primary, mixins)
 //@   aspect safety
@@ -452,6 +460,76 @@ package analysis
 //@   modifies heap spec.Swagger, heap spec.Paths, heap spec.Info, heap spec.ContactInfo, heap spec.License, heap spec.ExternalDocumentation, heap spec.Extensions, heap spec.Operation, heap map[string]spec.PathItem, heap spec.Definitions, heap map[string]spec.Parameter, heap map[string]spec.Response, heap map[string]*spec.SecurityScheme, heap map[string]bool
 //@   loop 1: invariant primary != nil && opIDs != nil && (forall i in 0..len(mixins) :: mixins[i] != nil)
 //@   loop 1: invariant primary.SecurityDefinitions != nil && primary.Paths != nil && primary.Paths.Paths != nil && primary.Definitions != nil && primary.Parameters != nil && primary.Responses != nil
+
+// ---- Mixin as a whole (C17, aspect compose): over any number of mixins, each keyed section of the result is the
+// union of the primary and all mixins, and everything the primary contained is kept with its value. Requires that the
+// documents do not share their section maps (they are distinct documents).
+//@ fun swPaths(s *spec.Swagger) map[string]spec.PathItem = if s.Paths == nil then nil else s.Paths.Paths
+//@ func Mixin(primary, mixins)
+//@   aspect compose
+//@   requires forall i in 0..len(mixins) :: !fresh(mixins[i].Definitions) && !fresh(mixins[i].Parameters) && !fresh(mixins[i].Responses) && !fresh(mixins[i].SecurityDefinitions) && !fresh(mixins[i].Paths) && !fresh(swPaths(mixins[i]))
+//@   requires primary != nil && (forall i in 0..len(mixins) :: mixins[i] != nil && mixins[i] != primary && (primary.Paths != nil ==> primary.Paths != mixins[i].Paths) && treeOps(mixins[i]) && (primary.Definitions != nil ==> primary.Definitions != mixins[i].Definitions) && (primary.Parameters != nil ==> primary.Parameters != mixins[i].Parameters) && (primary.Responses != nil ==> primary.Responses != mixins[i].Responses) && (primary.SecurityDefinitions != nil ==> primary.SecurityDefinitions != mixins[i].SecurityDefinitions) && (swPaths(primary) != nil ==> swPaths(primary) != swPaths(mixins[i])))
+//@   modifies heap spec.Swagger, heap spec.Paths, heap spec.Info, heap spec.ContactInfo, heap spec.License, heap spec.ExternalDocumentation, heap spec.Extensions, heap spec.Operation, heap map[string]spec.PathItem, heap spec.Definitions, heap map[string]spec.Parameter, heap map[string]spec.Response, heap map[string]*spec.SecurityScheme
+//@   ensures (forall k string :: old(k in dom(primary.Definitions)) ==> k in dom(primary.Definitions) && primary.Definitions[k] == old(primary.Definitions[k]))
+//@   ensures (forall i in 0..len(mixins) :: forall k in dom(mixins[i].Definitions) :: k in dom(primary.Definitions))
+//@   ensures (forall k in dom(primary.Definitions) :: old(k in dom(primary.Definitions)) || (exists j in 0..len(mixins) :: k in dom(mixins[j].Definitions)))
+//@   ensures (forall k string :: old(k in dom(primary.Parameters)) ==> k in dom(primary.Parameters) && primary.Parameters[k] == old(primary.Parameters[k]))
+//@   ensures (forall i in 0..len(mixins) :: forall k in dom(mixins[i].Parameters) :: k in dom(primary.Parameters))
+//@   ensures (forall k in dom(primary.Parameters) :: old(k in dom(primary.Parameters)) || (exists j in 0..len(mixins) :: k in dom(mixins[j].Parameters)))
+//@   ensures (forall k string :: old(k in dom(primary.Responses)) ==> k in dom(primary.Responses) && primary.Responses[k] == old(primary.Responses[k]))
+//@   ensures (forall i in 0..len(mixins) :: forall k in dom(mixins[i].Responses) :: k in dom(primary.Responses))
+//@   ensures (forall k in dom(primary.Responses) :: old(k in dom(primary.Responses)) || (exists j in 0..len(mixins) :: k in dom(mixins[j].Responses)))
+//@   ensures (forall k string :: old(k in dom(primary.SecurityDefinitions)) ==> k in dom(primary.SecurityDefinitions) && primary.SecurityDefinitions[k] == old(primary.SecurityDefinitions[k]))
+//@   ensures (forall i in 0..len(mixins) :: forall k in dom(mixins[i].SecurityDefinitions) :: k in dom(primary.SecurityDefinitions))
+//@   ensures (forall k in dom(primary.SecurityDefinitions) :: old(k in dom(primary.SecurityDefinitions)) || (exists j in 0..len(mixins) :: k in dom(mixins[j].SecurityDefinitions)))
+//@   ensures (forall k string :: old(k in dom(swPaths(primary))) ==> k in dom(swPaths(primary)) && swPaths(primary)[k] == old(swPaths(primary)[k]))
+//@   ensures (forall i in 0..len(mixins) :: forall k in dom(swPaths(mixins[i])) :: k in dom(swPaths(primary)))
+//@   ensures (forall k in dom(swPaths(primary)) :: old(k in dom(swPaths(primary))) || (exists j in 0..len(mixins) :: k in dom(swPaths(mixins[j]))))
+//@   ensures (forall k in dom(primary.Definitions) :: !old(k in dom(primary.Definitions)) ==> (exists j in 0..len(mixins) :: k in dom(mixins[j].Definitions) && primary.Definitions[k] == mixins[j].Definitions[k] && (forall j2 in 0..j :: !(k in dom(mixins[j2].Definitions)))))
+//@   ensures (forall k in dom(primary.Parameters) :: !old(k in dom(primary.Parameters)) ==> (exists j in 0..len(mixins) :: k in dom(mixins[j].Parameters) && primary.Parameters[k] == mixins[j].Parameters[k] && (forall j2 in 0..j :: !(k in dom(mixins[j2].Parameters)))))
+//@   ensures (forall k in dom(primary.Responses) :: !old(k in dom(primary.Responses)) ==> (exists j in 0..len(mixins) :: k in dom(mixins[j].Responses) && primary.Responses[k] == mixins[j].Responses[k] && (forall j2 in 0..j :: !(k in dom(mixins[j2].Responses)))))
+//@   ensures (forall k in dom(primary.SecurityDefinitions) :: !old(k in dom(primary.SecurityDefinitions)) ==> (exists j in 0..len(mixins) :: k in dom(mixins[j].SecurityDefinitions) && primary.SecurityDefinitions[k] == mixins[j].SecurityDefinitions[k] && (forall j2 in 0..j :: !(k in dom(mixins[j2].SecurityDefinitions)))))
+//@   ensures (forall k in dom(swPaths(primary)) :: !old(k in dom(swPaths(primary))) ==> (exists j in 0..len(mixins) :: k in dom(swPaths(mixins[j])) && swPaths(primary)[k] == swPaths(mixins[j])[k] && (forall j2 in 0..j :: !(k in dom(swPaths(mixins[j2]))))))
+//@   ensures len(primary.Consumes) >= old(len(primary.Consumes)) && (forall x in 0..old(len(primary.Consumes)) :: primary.Consumes[x] == old(primary.Consumes[x]))
+//@   ensures (forall i in 0..len(mixins) :: forall j in 0..len(mixins[i].Consumes) :: inStrs(primary.Consumes, mixins[i].Consumes[j]))
+//@   ensures (forall x in old(len(primary.Consumes))..len(primary.Consumes) :: (exists i in 0..len(mixins) :: inStrs(mixins[i].Consumes, primary.Consumes[x])) && (forall x2 in 0..x :: primary.Consumes[x2] != primary.Consumes[x]))
+//@   ensures len(primary.Produces) >= old(len(primary.Produces)) && (forall x in 0..old(len(primary.Produces)) :: primary.Produces[x] == old(primary.Produces[x]))
+//@   ensures (forall i in 0..len(mixins) :: forall j in 0..len(mixins[i].Produces) :: inStrs(primary.Produces, mixins[i].Produces[j]))
+//@   ensures (forall x in old(len(primary.Produces))..len(primary.Produces) :: (exists i in 0..len(mixins) :: inStrs(mixins[i].Produces, primary.Produces[x])) && (forall x2 in 0..x :: primary.Produces[x2] != primary.Produces[x]))
+//@   ensures len(primary.Schemes) >= old(len(primary.Schemes)) && (forall x in 0..old(len(primary.Schemes)) :: primary.Schemes[x] == old(primary.Schemes[x]))
+//@   ensures (forall i in 0..len(mixins) :: forall j in 0..len(mixins[i].Schemes) :: inStrs(primary.Schemes, mixins[i].Schemes[j]))
+//@   ensures (forall x in old(len(primary.Schemes))..len(primary.Schemes) :: (exists i in 0..len(mixins) :: inStrs(mixins[i].Schemes, primary.Schemes[x])) && (forall x2 in 0..x :: primary.Schemes[x2] != primary.Schemes[x]))
+//@   loop 1: invariant primary != nil && opIDs != nil && (forall i in 0..len(mixins) :: mixins[i] != nil && mixins[i] != primary && primary.Paths != mixins[i].Paths && treeOps(mixins[i]) && (primary.Definitions != mixins[i].Definitions) && (primary.Parameters != mixins[i].Parameters) && (primary.Responses != mixins[i].Responses) && (primary.SecurityDefinitions != mixins[i].SecurityDefinitions) && (swPaths(primary) != swPaths(mixins[i])))
+//@   loop 1: invariant primary.SecurityDefinitions != nil && primary.Paths != nil && primary.Paths.Paths != nil && primary.Definitions != nil && primary.Parameters != nil && primary.Responses != nil
+//@   loop 1: invariant (forall k string :: old(k in dom(primary.Definitions)) ==> k in dom(primary.Definitions) && primary.Definitions[k] == old(primary.Definitions[k]))
+//@   loop 1: invariant (forall i in 0..idx :: forall k in dom(mixins[i].Definitions) :: k in dom(primary.Definitions))
+//@   loop 1: invariant (forall k in dom(primary.Definitions) :: old(k in dom(primary.Definitions)) || (exists j in 0..idx :: k in dom(mixins[j].Definitions)))
+//@   loop 1: invariant (forall k string :: old(k in dom(primary.Parameters)) ==> k in dom(primary.Parameters) && primary.Parameters[k] == old(primary.Parameters[k]))
+//@   loop 1: invariant (forall i in 0..idx :: forall k in dom(mixins[i].Parameters) :: k in dom(primary.Parameters))
+//@   loop 1: invariant (forall k in dom(primary.Parameters) :: old(k in dom(primary.Parameters)) || (exists j in 0..idx :: k in dom(mixins[j].Parameters)))
+//@   loop 1: invariant (forall k string :: old(k in dom(primary.Responses)) ==> k in dom(primary.Responses) && primary.Responses[k] == old(primary.Responses[k]))
+//@   loop 1: invariant (forall i in 0..idx :: forall k in dom(mixins[i].Responses) :: k in dom(primary.Responses))
+//@   loop 1: invariant (forall k in dom(primary.Responses) :: old(k in dom(primary.Responses)) || (exists j in 0..idx :: k in dom(mixins[j].Responses)))
+//@   loop 1: invariant (forall k string :: old(k in dom(primary.SecurityDefinitions)) ==> k in dom(primary.SecurityDefinitions) && primary.SecurityDefinitions[k] == old(primary.SecurityDefinitions[k]))
+//@   loop 1: invariant (forall i in 0..idx :: forall k in dom(mixins[i].SecurityDefinitions) :: k in dom(primary.SecurityDefinitions))
+//@   loop 1: invariant (forall k in dom(primary.SecurityDefinitions) :: old(k in dom(primary.SecurityDefinitions)) || (exists j in 0..idx :: k in dom(mixins[j].SecurityDefinitions)))
+//@   loop 1: invariant (forall k string :: old(k in dom(swPaths(primary))) ==> k in dom(swPaths(primary)) && swPaths(primary)[k] == old(swPaths(primary)[k]))
+//@   loop 1: invariant (forall i in 0..idx :: forall k in dom(swPaths(mixins[i])) :: k in dom(swPaths(primary)))
+//@   loop 1: invariant (forall k in dom(swPaths(primary)) :: old(k in dom(swPaths(primary))) || (exists j in 0..idx :: k in dom(swPaths(mixins[j]))))
+//@   loop 1: invariant (forall k in dom(primary.Definitions) :: !old(k in dom(primary.Definitions)) ==> (exists j in 0..idx :: k in dom(mixins[j].Definitions) && primary.Definitions[k] == mixins[j].Definitions[k] && (forall j2 in 0..j :: !(k in dom(mixins[j2].Definitions)))))
+//@   loop 1: invariant (forall k in dom(primary.Parameters) :: !old(k in dom(primary.Parameters)) ==> (exists j in 0..idx :: k in dom(mixins[j].Parameters) && primary.Parameters[k] == mixins[j].Parameters[k] && (forall j2 in 0..j :: !(k in dom(mixins[j2].Parameters)))))
+//@   loop 1: invariant (forall k in dom(primary.Responses) :: !old(k in dom(primary.Responses)) ==> (exists j in 0..idx :: k in dom(mixins[j].Responses) && primary.Responses[k] == mixins[j].Responses[k] && (forall j2 in 0..j :: !(k in dom(mixins[j2].Responses)))))
+//@   loop 1: invariant (forall k in dom(primary.SecurityDefinitions) :: !old(k in dom(primary.SecurityDefinitions)) ==> (exists j in 0..idx :: k in dom(mixins[j].SecurityDefinitions) && primary.SecurityDefinitions[k] == mixins[j].SecurityDefinitions[k] && (forall j2 in 0..j :: !(k in dom(mixins[j2].SecurityDefinitions)))))
+//@   loop 1: invariant (forall k in dom(swPaths(primary)) :: !old(k in dom(swPaths(primary))) ==> (exists j in 0..idx :: k in dom(swPaths(mixins[j])) && swPaths(primary)[k] == swPaths(mixins[j])[k] && (forall j2 in 0..j :: !(k in dom(swPaths(mixins[j2]))))))
+//@   loop 1: invariant len(primary.Consumes) >= old(len(primary.Consumes)) && (forall x in 0..old(len(primary.Consumes)) :: primary.Consumes[x] == old(primary.Consumes[x]))
+//@   loop 1: invariant (forall i in 0..idx :: forall j in 0..len(mixins[i].Consumes) :: inStrs(primary.Consumes, mixins[i].Consumes[j]))
+//@   loop 1: invariant (forall x in old(len(primary.Consumes))..len(primary.Consumes) :: (exists i in 0..idx :: inStrs(mixins[i].Consumes, primary.Consumes[x])) && (forall x2 in 0..x :: primary.Consumes[x2] != primary.Consumes[x]))
+//@   loop 1: invariant len(primary.Produces) >= old(len(primary.Produces)) && (forall x in 0..old(len(primary.Produces)) :: primary.Produces[x] == old(primary.Produces[x]))
+//@   loop 1: invariant (forall i in 0..idx :: forall j in 0..len(mixins[i].Produces) :: inStrs(primary.Produces, mixins[i].Produces[j]))
+//@   loop 1: invariant (forall x in old(len(primary.Produces))..len(primary.Produces) :: (exists i in 0..idx :: inStrs(mixins[i].Produces, primary.Produces[x])) && (forall x2 in 0..x :: primary.Produces[x2] != primary.Produces[x]))
+//@   loop 1: invariant len(primary.Schemes) >= old(len(primary.Schemes)) && (forall x in 0..old(len(primary.Schemes)) :: primary.Schemes[x] == old(primary.Schemes[x]))
+//@   loop 1: invariant (forall i in 0..idx :: forall j in 0..len(mixins[i].Schemes) :: inStrs(primary.Schemes, mixins[i].Schemes[j]))
+//@   loop 1: invariant (forall x in old(len(primary.Schemes))..len(primary.Schemes) :: (exists i in 0..idx :: inStrs(mixins[i].Schemes, primary.Schemes[x])) && (forall x2 in 0..x :: primary.Schemes[x2] != primary.Schemes[x]))
 
 //@ func mergeSwaggerProps(primary, m)
 //@   uses safety for mergeInfo, mergeExtensions
